@@ -172,22 +172,22 @@ def run(ctx):
         for vec, pl in mine.plant_vectors(name, base, ok, rnd, budget=12 if ctx.quick else 120,
                                           max_singles=150 if ctx.quick else 1200):
             S, E = tuple(vec[:4]), tuple(vec[4:])
-            planted += 1
-            shape = planted % 4
-            if shape == 0:
-                st = [w.sys(name, 1, 1, S), w.sys(name, 2, 1, E)]
-            elif shape == 1:
-                st = [w.sys(name, 1, 1, S)] + w.lookup(1, rnd.choice([b'rel/path', b'/abs/path', b'x', b''])) + [w.sys(name, 2, 1, E)]
-            elif shape == 2:
-                st = [w.sys(name, 1, 1, S)] + w.lookup(1, b'/a/b') + w.lookup(1, b'c/d') + [w.sys(name, 2, 1, E)]
-            else:
-                # ONE record is both START and END word source: the planted words must be in both domains
-                one = list(w.words(name, 'single'))
-                for pos, wv in pl:
-                    if ok(pos % 4, wv) and ok(pos % 4 + 4, wv):
-                        one[pos % 4] = wv
-                st = [w.sys(name, rnd.choice([0, 3]), 1, tuple(one))]
-            win_cases.append(('planted_%s_%d' % (name, planted), w, st))
+            for shape in ((0, 1, 2, 3) if len(pl) == 1 else ((planted + 1) % 4,)):
+              planted += 1
+              if shape == 0:
+                  st = [w.sys(name, 1, 1, S), w.sys(name, 2, 1, E)]
+              elif shape == 1:
+                  st = [w.sys(name, 1, 1, S)] + w.lookup(1, rnd.choice([b'rel/path', b'/abs/path', b'x', b''])) + [w.sys(name, 2, 1, E)]
+              elif shape == 2:
+                  st = [w.sys(name, 1, 1, S)] + w.lookup(1, b'/a/b') + w.lookup(1, b'c/d') + [w.sys(name, 2, 1, E)]
+              else:
+                  # ONE record is both START and END word source: the planted words must be in both domains
+                  one = list(w.words(name, 'single'))
+                  for pos, wv in pl:
+                      if ok(pos % 4, wv) and ok(pos % 4 + 4, wv):
+                          one[pos % 4] = wv
+                  st = [w.sys(name, rnd.choice([0, 3]), 1, tuple(one))]
+              win_cases.append(('planted_%s_%d' % (name, planted), w, st))
     ctx.extra['planted_cases'] = planted
     validate_streams(ctx, win_cases, 'win', 'c07win')
     validate_streams(ctx, full_cases, 'full', 'c07full')
